@@ -26,7 +26,10 @@ import (
 	"github.com/tikv/pd/server/kv"
 	"go.uber.org/zap"
 
+	"github.com/pingcap/kvproto/pkg/pdpb"
+
 	"pdverif/internal/coqfmt"
+	"pdverif/internal/pdcluster"
 	"pdverif/internal/etcdx"
 	"pdverif/internal/res"
 	"pdverif/internal/rng"
@@ -1187,6 +1190,7 @@ func main() {
 			emit(runCase(c))
 		}
 	}
+	joinProbe := func() {}
 	if *replay != "" {
 		for _, c := range all {
 			for i := range c.Ops {
@@ -1226,6 +1230,18 @@ func main() {
 			}
 			os.RemoveAll(dir)
 		}
+		// the two-member probe takes ~20 s of mostly waiting (cluster start, election, close): side by side with the cases
+		probeR := res.New("C17", *seed, *tier)
+		probeDone := make(chan struct{})
+		go func() { defer close(probeDone); followerBackendProbe(probeR) }()
+		joinProbe = func() {
+			<-probeDone
+			for _, v := range probeR.Violations {
+				R.Violate(v.Sig, v.Desc, v.Replay)
+			}
+			R.Notes = append(R.Notes, probeR.Notes...)
+			R.Count("probe:follower-backend")
+		}
 		for _, c := range fixedCases() {
 			emit(runCase(c))
 		}
@@ -1255,6 +1271,7 @@ func main() {
 			emit(runCase(c))
 		}
 	}
+	joinProbe()
 	if err := cf.Flush(); err != nil {
 		panic(err)
 	}
@@ -1299,6 +1316,109 @@ func rangeContract(R *res.Result, name string, b kv.Base, n int) {
 					name, limit, n, len(keys), want), map[string]interface{}{"probe": "loadrange-contract", "backend": name, "keys": n, "limit": limit})
 			return
 		}
+	}
+}
+
+// followerBackendProbe: two REAL PD members. The one whose first role is follower receives regions through the region syncer
+// and saves them with its own Storage; after a Flush they must be loadable from the region backend its configuration names
+// (use-region-storage, true by default) — that is where it will load from when it restarts or is elected.
+func followerBackendProbe(R *res.Result) {
+	R.Count("probe:follower-backend")
+	c, err := pdcluster.Start(2, nil)
+	if err != nil {
+		R.Notes = append(R.Notes, "follower-backend probe skipped: "+err.Error())
+		return
+	}
+	defer c.Close()
+	l := c.WaitLeader(60 * time.Second)
+	if l == nil {
+		R.Notes = append(R.Notes, "follower-backend probe skipped: no PD leader after 60 s")
+		return
+	}
+	var f *pdcluster.Node
+	for _, x := range c.Nodes {
+		if x != l {
+			f = x
+		}
+	}
+	ctx, cancel := context.WithTimeout(context.Background(), 20*time.Second)
+	defer cancel()
+	peer := &metapb.Peer{Id: 3, StoreId: 1}
+	if _, err := l.S.Bootstrap(ctx, &pdpb.BootstrapRequest{Header: &pdpb.RequestHeader{ClusterId: l.S.ClusterID()},
+		Store:  &metapb.Store{Id: 1, Address: "mock://tikv-1", Version: "5.0.0"},
+		Region: &metapb.Region{Id: 2, Peers: []*metapb.Peer{peer}, RegionEpoch: &metapb.RegionEpoch{ConfVer: 1, Version: 1}}}); err != nil {
+		R.Notes = append(R.Notes, "follower-backend probe skipped: bootstrap: "+err.Error())
+		return
+	}
+	rc := l.S.GetRaftCluster()
+	deadline := time.Now().Add(10 * time.Second)
+	for rc == nil && time.Now().Before(deadline) {
+		time.Sleep(10 * time.Millisecond)
+		rc = l.S.GetRaftCluster()
+	}
+	if rc == nil {
+		R.Notes = append(R.Notes, "follower-backend probe skipped: no raft cluster on the leader")
+		return
+	}
+	const n = 30
+	want := map[uint64]bool{}
+	for i := 0; i < n; i++ {
+		id := uint64(100 + i)
+		m := &metapb.Region{Id: id, StartKey: keyOf(uint64(i) * 10), EndKey: keyOf(uint64(i+1) * 10), RegionEpoch: &metapb.RegionEpoch{ConfVer: 1, Version: 2},
+			Peers: []*metapb.Peer{{Id: id*10 + 1, StoreId: 1}}}
+		if i == n-1 {
+			m.EndKey = nil
+		}
+		if err := rc.HandleRegionHeartbeat(core.NewRegionInfo(m, m.Peers[0])); err != nil {
+			R.Notes = append(R.Notes, "follower-backend probe: heartbeat: "+err.Error())
+		}
+		want[id] = true
+	}
+	// the follower has them in its cache once the syncer has delivered them
+	deadline = time.Now().Add(15 * time.Second)
+	got := 0
+	for time.Now().Before(deadline) {
+		got = 0
+		for id := range want {
+			if f.S.GetBasicCluster().GetRegion(id) != nil {
+				got++
+			}
+		}
+		if got == n {
+			break
+		}
+		time.Sleep(20 * time.Millisecond)
+	}
+	if got != n {
+		R.Notes = append(R.Notes, fmt.Sprintf("follower-backend probe: only %d of %d regions reached the follower's cache through the syncer", got, n))
+		return
+	}
+	time.Sleep(100 * time.Millisecond) // the SaveRegion of the last synced region
+	st := f.S.GetStorage()
+	if err := st.Flush(); err != nil {
+		panic(err)
+	}
+	// what campaignLeader / a restart of this member would do before it loads: select the backend the configuration names
+	useRS := f.S.GetPersistOptions().IsUseRegionStorage()
+	if useRS {
+		st.SwitchToRegionStorage()
+	} else {
+		st.SwitchToDefaultStorage()
+	}
+	loaded := map[uint64]bool{}
+	if err := st.LoadRegions(func(r *core.RegionInfo) []*core.RegionInfo { loaded[r.GetID()] = true; return nil }); err != nil {
+		panic(err)
+	}
+	missing := 0
+	for id := range want {
+		if !loaded[id] {
+			missing++
+		}
+	}
+	if missing > 0 {
+		R.Violate("C17:member:synced-regions-not-in-configured-backend",
+			fmt.Sprintf("two real members: the follower (its first role) saved %d regions received through the region syncer, Flush returned, and %d of them cannot be loaded from the backend its configuration names (use-region-storage=%v): it kept writing to the other backend",
+				n, missing, useRS), map[string]interface{}{"probe": "follower-backend", "regions": n, "missing": missing, "use_region_storage": useRS})
 	}
 }
 
